@@ -32,13 +32,14 @@ CONF = {
     "C07": dict(level="exploration", workers=16, quick=dict(cases=3000, size=80), thorough=dict(cases=20000, size=100)),
     "C08": dict(level="exploration", workers=16, quick=dict(cases=1500, size=70), thorough=dict(cases=15000, size=100)),
     "C09": dict(level="exploration", workers=16, quick=dict(cases=800, size=60), thorough=dict(cases=10000, size=100)),
-    "C11": dict(level="exploration", workers=16, quick=dict(cases=400, size=60), thorough=dict(cases=6000, size=100),
+    "C11": dict(also=dict(quick=[("C16", 300)], thorough=[("C16", 3000)]), level="exploration", workers=16, quick=dict(cases=400, size=60), thorough=dict(cases=6000, size=100),
                 fuzz=[dict(name="fz_session", quick_runs=1200, thorough_runs=60000, max_len=256, jobs=6)]),
     "C12": dict(level="exploration", workers=16, quick=dict(cases=1200, size=70), thorough=dict(cases=12000, size=100)),
     "C10": dict(level="exploration", workers=16, quick=dict(cases=2500, size=60), thorough=dict(cases=15000, size=100)),
     "C14": dict(level="exploration", workers=16, quick=dict(cases=1200, size=60), thorough=dict(cases=8000, size=100)),
     "C13": dict(level="exploration", workers=16, quick=dict(cases=2000, size=60), thorough=dict(cases=8000, size=100)),
     "C15": dict(level="exploration", workers=16, quick=dict(cases=3000, size=80), thorough=dict(cases=15000, size=100)),
+    "C16": dict(level="exploration", workers=16, quick=dict(cases=900, size=50), thorough=dict(cases=10000, size=100)),
     "C17": dict(level="exploration", workers=16, quick=dict(cases=8000, size=100), thorough=dict(cases=150000, size=150),
                 fuzz=[]),
     "C18": dict(level="exploration", workers=16, quick=dict(cases=12000, size=100), thorough=dict(cases=300000, size=150),
@@ -106,7 +107,13 @@ def main():
     env["UBSAN_OPTIONS"] = "print_stacktrace=1"
 
     if replay:
-        r = subprocess.run([binp, "--replay", replay], env=env)
+        # a replay file produced by another property's driver (see "also") names that driver
+        pref = os.path.basename(replay).split("-")[0]
+        if pref != pid and pref in CONF and any(pref == o for t in conf.get("also", {}).values() for o, _ in t):
+            build(pref, ["san"])
+            binp = f"{B}/bin/{pref}"
+        r = subprocess.run([binp, "--replay", replay], env=env, stdout=subprocess.PIPE, text=True)
+        sys.stdout.write(r.stdout.replace(f"property={pref}", f"property={pid}") if binp.endswith(pref) and pref != pid else r.stdout)
         return r.returncode
 
     violations = []
@@ -149,6 +156,34 @@ def main():
         except Exception as e:  # worker died without writing: harness problem, report loudly
             out_lines.append(f"WORKER-ERROR worker={w} rc={p.returncode} {e}")
             violations.append(dict(sig="worker-error", replay=f"{rdir}/w{w}.err", msg=f"worker {w} exited {p.returncode} without statistics"))
+
+    # 2b. drivers of other properties whose generated domain also belongs to this property
+    #     (e.g. the WebSocket hostile-peer sessions of C16 decide C11's size limits over ws://)
+    for other, ocases in conf.get("also", {}).get(tier, []):
+        build(other, ["san"])
+        obin = f"{B}/bin/{other}"
+        odir = f"{B}/run/{pid}-{other}"
+        shutil.rmtree(odir, ignore_errors=True)
+        os.makedirs(odir, exist_ok=True)
+        oprocs = []
+        for w in range(workers):
+            ws = derive_seed(seed + 7919, w)
+            cmd = [obin, "--cases", str(ocases), "--size", str(CONF[other][tier]["size"]), "--seed", str(ws), "--worker", str(w),
+                   "--out", f"{odir}/w{w}.json", "--known", f"{V}/known_findings.json"]
+            oprocs.append((w, subprocess.Popen(cmd, env=env, stdout=subprocess.PIPE, stderr=open(f"{odir}/w{w}.err", "w"), text=True)))
+        for w, p2 in oprocs:
+            so, _ = p2.communicate()
+            for ln in so.splitlines():
+                if ln.startswith(("FAIL", "UNSTABLE")):
+                    out_lines.append(ln.replace(f"property={other}", f"property={pid} via={other}"))
+            try:
+                st = json.load(open(f"{odir}/w{w}.json"))
+                st["tags"] = {f"{other}:{k}": v for k, v in st["tags"].items()}
+                st["known_hits"] = {}
+                stats.append(st)
+            except Exception as e:
+                out_lines.append(f"WORKER-ERROR worker={w} ({other}) rc={p2.returncode} {e}")
+                violations.append(dict(sig="worker-error", replay=f"{odir}/w{w}.err", msg=f"{other} worker {w} exited {p2.returncode} without statistics"))
 
     # 3. libFuzzer targets (optional)
     fuzz_stats = []
